@@ -47,6 +47,13 @@ def index_vars(ix):
     return []
 
 
+_SPECIAL = {"nan": float("nan"), "inf": float("inf"), "-inf": -float("inf")}
+
+
+def dec_number(x):
+    return _SPECIAL[x] if isinstance(x, str) else x
+
+
 def dec_operand(op, env):
     t = op[0]
     if t == "var":
@@ -54,15 +61,15 @@ def dec_operand(op, env):
     if t == "py":
         return op[1]
     if t == "pyf":
-        return float(op[1])
+        return float(dec_number(op[1]))
     if t == "sc":
-        return np.dtype(op[1]).type(op[2])
+        return np.dtype(op[1]).type(dec_number(op[2]))
     if t == "col":
-        return np.array(op[2], dtype=op[1]).reshape(-1, 1)
+        return np.array([dec_number(x) for x in op[2]], dtype=op[1]).reshape(-1, 1)
     if t == "row":
-        return np.array(op[2], dtype=op[1])
+        return np.array([dec_number(x) for x in op[2]], dtype=op[1])
     if t == "list":
-        return list(op[1])
+        return [dec_number(x) for x in op[1]]
     raise ValueError(f"bad operand encoding {op!r}")
 
 
